@@ -523,6 +523,32 @@ func jget(n *JNode, key string) *JNode {
 	return nil
 }
 
+var envLit = regexp.MustCompile(`(?:Getenv|LookupEnv)\("([A-Za-z0-9_]+)"\)`)
+
+// scrapeEnvNames: the environment variables the current sources read, minus the documented ones
+func scrapeEnvNames(src string) []string {
+	seen := map[string]bool{"ATLAS_PUBLIC_KEY": true, "ATLAS_PRIVATE_KEY": true, "ANONYMONGO_VERSION": true}
+	var out []string
+	files, _ := filepath.Glob(filepath.Join(src, "*.go"))
+	sort.Strings(files)
+	for _, f := range files {
+		if strings.Contains(filepath.Base(f), "zz_verif_") {
+			continue
+		}
+		b, err := os.ReadFile(f)
+		if err != nil {
+			continue
+		}
+		for _, m := range envLit.FindAllStringSubmatch(string(b), -1) {
+			if !seen[m[1]] {
+				seen[m[1]] = true
+				out = append(out, m[1])
+			}
+		}
+	}
+	return out
+}
+
 var setLit = regexp.MustCompile(`Set\("([^"\\]+)"`)
 var strLit = regexp.MustCompile(`"(\$[A-Za-z]+)"`)
 
